@@ -1,7 +1,218 @@
 package main
 
-// Command generators for the list module (placeholder).
+// Command generator for the list module (LPUSH LPUSHX RPUSH RPUSHX LPOP RPOP LLEN LRANGE LINDEX
+// LSET LTRIM LREM LMOVE) plus the few generic commands that create / destroy / retype keys.
 
+import (
+	"math/rand"
+)
+
+// Elements: a small pool so that duplicates (also adjacent ones) are frequent - LREM, LMOVE onto
+// itself and index arithmetic only become interesting with repeated elements.  List elements are
+// never re-typed by the server, so numeric-looking ones need no special care; they are here to
+// show that "7", "007" and "7.0" stay three different elements.
+var listElems = []string{
+	"a", "a", "a", "b", "b", "c", "", "7", "007", "7.0", "-3", "a\r\nb", "\r\n", "\x00", "a\x00b", "\n", "x\xffy",
+	"left", "$-1", "*0", "A",
+}
+
+func listElem(r *rand.Rand) Tok {
+	switch r.Intn(12) {
+	case 0:
+		return B(randFree(r))
+	case 1:
+		return I(pick(r, []int64{0, 7, -3, 12})) // an integer token in a value position
+	default:
+		return B(pick(r, listElems))
+	}
+}
+
+// indices and counts: negative, zero, around the typical list lengths (0..8), far beyond
+var listIdx = []int64{0, 0, 0, 1, 1, 1, 2, 2, 3, 3, 4, 5, 6, 7, 8, 9, 10, 100, -1, -1, -1, -2, -2, -3, -3, -4, -5, -6, -7, -8, -9,
+	-10, -100, 1000000}
+
+// things that are not what strconv.Atoi accepts, and a few that are although they look odd
+var listBadNums = []string{"x", "", "1.5", "1e2", " 1", "1 ", "-", "+", "0x10", "2a", "--1", "1\r\n"}
+var listOddNums = []string{"+2", "007", "-0", "+0", "-01", "00"}
+
+func listNum(r *rand.Rand) Tok {
+	switch r.Intn(16) {
+	case 0:
+		return B(pick(r, listBadNums))
+	case 1:
+		return B(pick(r, listOddNums))
+	default:
+		return I(pick(r, listIdx))
+	}
+}
+
+func listWhere(r *rand.Rand) Tok {
+	switch r.Intn(14) {
+	case 0:
+		return S(pick(r, []string{"UP", "DOWN", "MIDDLE", "LEFTT", "L"}))
+	case 1:
+		return B(pick(r, []string{"", "le ft", "right\n"}))
+	case 2:
+		return S(pick(r, []string{"left", "right", "Left", "rIGHT"}))
+	default:
+		return S(pick(r, []string{"LEFT", "RIGHT"}))
+	}
+}
+
+var listNames = []string{"LPUSH", "LPUSHX", "RPUSH", "RPUSHX", "LPOP", "RPOP", "LLEN", "LRANGE", "LINDEX", "LSET",
+	"LTRIM", "LREM", "LMOVE"}
+
+// genList returns one random command.
+func genList(r *rand.Rand, keys []string) []Tok {
+	k := func() Tok { return S(pick(r, keys)) }
+	elems := func(c []Tok) []Tok {
+		n := 1 + r.Intn(3)
+		if r.Intn(10) == 0 {
+			n = 4 + r.Intn(3)
+		}
+		for i := 0; i < n; i++ {
+			c = append(c, listElem(r))
+		}
+		if r.Intn(6) == 0 { // the same element several times in one command
+			c = append(c, c[len(c)-1], c[len(c)-1])
+		}
+		return c
+	}
+	switch r.Intn(40) {
+	case 0, 1, 2, 3:
+		return elems([]Tok{S("RPUSH"), k()})
+	case 4, 5, 6:
+		return elems([]Tok{S("LPUSH"), k()})
+	case 7:
+		return elems([]Tok{S("LPUSHX"), k()})
+	case 8:
+		return elems([]Tok{S("RPUSHX"), k()})
+	case 9, 10, 11:
+		c := []Tok{S(pick(r, []string{"LPOP", "RPOP"})), k()}
+		if r.Intn(2) == 0 {
+			c = append(c, listNum(r))
+		}
+		return c
+	case 12, 13:
+		return []Tok{S("LLEN"), k()}
+	case 14, 15, 16, 17, 18:
+		return []Tok{S("LRANGE"), k(), listNum(r), listNum(r)}
+	case 19, 20:
+		if r.Intn(2) == 0 {
+			return []Tok{S("LRANGE"), k(), I(0), I(-1)}
+		}
+		return []Tok{S("LRANGE"), k(), I(pick(r, []int64{0, 1, -2, -100})), I(pick(r, []int64{-1, -2, 2, 100}))}
+	case 21, 22, 23:
+		return []Tok{S("LINDEX"), k(), listNum(r)}
+	case 24, 25, 26:
+		return []Tok{S("LSET"), k(), listNum(r), listElem(r)}
+	case 27, 28, 29:
+		return []Tok{S("LTRIM"), k(), listNum(r), listNum(r)}
+	case 30, 31, 32, 33:
+		c := []Tok{S("LREM"), k(), I(pick(r, []int64{0, 0, 1, 1, 2, 3, -1, -1, -2, -3, 10, -10})), B(pick(r, listElems[:9]))}
+		if r.Intn(12) == 0 {
+			c[2] = listNum(r)
+		}
+		if r.Intn(8) == 0 {
+			c[3] = listElem(r)
+		}
+		return c
+	case 34, 35, 36:
+		return []Tok{S("LMOVE"), k(), k(), listWhere(r), listWhere(r)}
+	case 37:
+		// wrong arity: too short, or too long
+		c := []Tok{S(pick(r, listNames)), k()}
+		switch r.Intn(3) {
+		case 0:
+			if r.Intn(2) == 0 {
+				c = c[:1]
+			}
+		case 1:
+			c = append(c, I(pick(r, []int64{0, 1, -1})))
+		case 2:
+			c = append(c, I(0), I(1), B("a"), S("LEFT"), B("b"))
+			if r.Intn(2) == 0 {
+				c = []Tok{c[0], c[1], k(), S("LEFT"), S("RIGHT"), S("LEFT")}
+			}
+		}
+		return c
+	case 38:
+		switch r.Intn(4) {
+		case 0:
+			c := []Tok{S("DEL"), k()}
+			if r.Intn(3) == 0 {
+				c = append(c, k())
+			}
+			return c
+		case 1:
+			return []Tok{S("SET"), k(), B(pick(r, []string{"v", "12", "1.5", ""}))}
+		case 2:
+			return []Tok{S("GET"), k()}
+		default:
+			return []Tok{S("RENAME"), k(), k()}
+		}
+	default:
+		return []Tok{S("TYPE"), k()}
+	}
+}
+
+// Presets: every other value type sits under some key, so that each list command meets each wrong
+// type; lists with duplicates; an empty list (only reachable by popping); lists with a deadline.
+func listPresets() [][][]Tok {
+	other := [][]Tok{
+		{S("SET"), S("k2"), B("hello")},
+		{S("SET"), S("k2"), B("41")},
+		{S("SET"), S("k2"), B("1.5")},
+		{S("HSET"), S("k2"), B("f"), B("v")},
+		{S("SADD"), S("k2"), B("m"), B("n")},
+		{S("ZADD"), S("k2"), I(1), B("m")},
+	}
+	out := [][][]Tok{
+		{},
+		{{S("RPUSH"), S("k1"), B("a"), B("b"), B("a"), B("a"), B("c"), B("a")}},
+		{{S("RPUSH"), S("k1"), B("a"), B("a"), B("a")}, {S("RPUSH"), S("k2"), B("x"), B("y")}},
+		{{S("RPUSH"), S("k1"), B("a")}, {S("LPOP"), S("k1")}}, // empty list
+		{{S("RPUSH"), S("k1"), B("a")}, {S("LPOP"), S("k1")}, {S("RPUSH"), S("k2"), B("a"), B("b"), B("c")}},
+		{{S("RPUSH"), S("k1"), B("a"), B("b"), B("c")}, {S("PEXPIRE"), S("k1"), I(1500)},
+			{S("RPUSH"), S("k2"), B("b"), B("b")}, {S("PEXPIRE"), S("k2"), I(20000)}},
+		{{S("RPUSH"), S("k1"), B("0"), B("1"), B("2"), B("3"), B("4"), B("5"), B("6"), B("7")}},
+		{{S("RPUSH"), S("k1"), B("a"), B("b"), B("c"), B("d")}, {S("RPUSH"), S("k2"), B("a"), B("a"), B("b"), B("a"), B("a")},
+			{S("RPUSH"), S("k3"), B("c")}},
+		{{S("LPUSH"), S("k1"), B("b"), B("a"), B("a"), B("b"), B("a"), B("a"), B("a"), B("b")}, {S("RPUSH"), S("k2"), B("")},
+			{S("RPUSH"), S("k3"), B("x"), B("y"), B("z")}, {S("RPUSH"), S("k4"), B("a"), B("b")}},
+	}
+	nl := len(out)
+	for _, o := range other {
+		out = append(out, [][]Tok{o})
+		out = append(out, [][]Tok{{S("RPUSH"), S("k1"), B("a"), B("b"), B("b"), B("a")}, o})
+		o3 := []Tok{o[0], S("k3")}
+		o3 = append(o3, o[2:]...)
+		out = append(out, [][]Tok{{S("LPUSH"), S("k1"), B(""), B("a\r\nb"), B("\x00")}, o, o3})
+	}
+	// the list-only presets once more, so that about half of the programs start without a wrong-typed key
+	for i := 0; i < 2; i++ {
+		out = append(out, out[1:nl]...)
+	}
+	return out
+}
+
+// RandomListPrograms builds n random programs of the given length over 2-4 keys.
 func RandomListPrograms(seed int64, n, length int) []Program {
-	return nil
+	r := rand.New(rand.NewSource(seed))
+	presets := listPresets()
+	var out []Program
+	for i := 0; i < n; i++ {
+		nk := 2 + r.Intn(3)
+		keys := []string{"k1", "k2", "k3", "k4"}[:nk]
+		p := Program{Preset: presets[r.Intn(len(presets))]}
+		for j := 0; j < length; j++ {
+			t := int64(0)
+			if r.Intn(12) == 0 {
+				t = pick(r, []int64{1, 499, 1000, 1501, 10000})
+			}
+			p.Steps = append(p.Steps, Step{Cmd: genList(r, keys), Tick: t})
+		}
+		out = append(out, p)
+	}
+	return out
 }
